@@ -208,3 +208,73 @@ Proof.
     - intros e Hh. destruct e; [|apply Rperm_refl]. eapply Rperm_trans; [apply perm_drop_fs | apply perm_kill_flag]. }
   exact (pm_dead _ _ P cid L1 D1).
 Qed.
+
+(* ---------- the core's request channel only grows (fifth instance) ---------- *)
+(* Effects reach the shell through the core's request channel (heap field hout: written by the executor task
+   that forwards a hosted command's effects, and by capability contexts).  No step of the runtime ever removes
+   or rewrites anything in it: what was requested stays requested, in order, until the call hands the whole
+   channel over. *)
+Definition Rhout (H H' : heap) : Prop := exists l, hout H' = hout H ++ l.
+Lemma Rhout_refl H : Rhout H H. Proof. exists []. rewrite app_nil_r. reflexivity. Qed.
+Lemma Rhout_trans a b c : Rhout a b -> Rhout b c -> Rhout a c.
+Proof. intros [l1 E1] [l2 E2]. exists (l1 ++ l2). rewrite E2, E1, app_assoc. reflexivity. Qed.
+Lemma Rhout_same H H' : hout H' = hout H -> Rhout H H'.
+Proof. intros E. exists []. rewrite E, app_nil_r. reflexivity. Qed.
+Definition frame_hout := frame_all Rhout Rhout_refl Rhout_trans
+  (fun c f H _ => Rhout_same H (ucmd c f H) eq_refl)
+  (fun c f H _ => Rhout_same H (uch c f H) eq_refl)
+  (fun u f H _ => Rhout_same H (utf u f H) eq_refl)
+  (fun n H => Rhout_same H (note n H) eq_refl)
+  (fun g H => Rhout_same H (set_woken g H) eq_refl)
+  (fun q H => Rhout_same H (push_xready q H) eq_refl)
+  (fun c H => Rhout_same H (mkH (chans H ++ [c]) (tfl H) (cmds H) (woken H) (xready H) (aborted H) (log H) (hout H)) eq_refl)
+  (fun t H => Rhout_same H (mkH (chans H) (tfl H ++ [t]) (cmds H) (woken H) (xready H) (aborted H) (log H) (hout H)) eq_refl)
+  (fun H => Rhout_same H (mkH (chans H) (tfl H) (cmds H) (woken H ++ [false]) (xready H) (aborted H) (log H) (hout H)) eq_refl)
+  (fun n H => Rhout_same H (add_aborted n H) eq_refl)
+  (fun e H => ex_intro _ [e] eq_refl)
+  (fun c H => Rhout_same H (mkH (chans H) (tfl H) (cmds H ++ [c]) (woken H) (xready H) (aborted H) (log H) (hout H)) eq_refl).
+Theorem hout_poll_next fuel cid w H r H' : poll_next fuel cid w H = Some (r, H') -> Rhout H H'.
+Proof. intros E. unfold poll_next in E. apply (frame_hout fuel) in E. exact E. Qed.
+Lemma hout_drop_cmd fuel cid H : Rhout H (drop_cmd fuel cid H).
+Proof.
+  apply (R_drop_cmd Rhout Rhout_refl Rhout_trans (fun c f H _ => Rhout_same H (ucmd c f H) eq_refl)
+           (fun c f H _ => Rhout_same H (uch c f H) eq_refl) (fun u f H _ => Rhout_same H (utf u f H) eq_refl));
+    intros; apply Rhout_same; reflexivity.
+Qed.
+
+(* ---------- waking touches no channel; a resolution goes into the request's own channel only ---------- *)
+Definition Rchans (H H' : heap) : Prop := chans H' = chans H.
+Lemma wake_chans fuel w H : chans (wake fuel w H) = chans H.
+Proof.
+  apply (R_wake Rchans (fun H => eq_refl) (fun a b c (E1 : Rchans a b) (E2 : Rchans b c) => eq_trans E2 E1)
+           (fun c f H _ => eq_refl)); intros; reflexivity.
+Qed.
+Lemma wake_cell_chan ch H c : c <> ch -> gch c (wake_cell ch H) = gch c H.
+Proof.
+  intros Hne. unfold wake_cell. destruct (ch_wk (gch ch H)); [|reflexivity].
+  unfold gch at 1. rewrite wake_chans. fold (gch c (uch ch (fun c0 => mkChan (ch_buf c0) (ch_tx c0) (ch_rx c0) None) H)).
+  apply gch_uch_other. auto.
+Qed.
+Lemma wake_cell_buf ch H c : ch_buf (gch c (wake_cell ch H)) = ch_buf (gch c H).
+Proof.
+  unfold wake_cell. destruct (ch_wk (gch ch H)); [|reflexivity].
+  unfold gch at 1. rewrite wake_chans. fold (gch c (uch ch (fun c0 => mkChan (ch_buf c0) (ch_tx c0) (ch_rx c0) None) H)).
+  destruct (Nat.eq_dec ch c) as [->|Hne]; [rewrite gch_uch_same; reflexivity | rewrite gch_uch_other by exact Hne; reflexivity].
+Qed.
+(* Sending v on channel ch: every other channel keeps its buffer; ch's buffer gains exactly v at its end
+   when the receiver is alive and is unchanged when it is gone *)
+Theorem chan_send_routes ch v H c :
+  ch_buf (gch c (snd (chan_send ch v H))) =
+  if Nat.eqb c ch then (if ch_rx (gch ch H) then ch_buf (gch ch H) ++ [v] else ch_buf (gch ch H)) else ch_buf (gch c H).
+Proof.
+  unfold chan_send. destruct (ch_rx (gch ch H)) eqn:Erx; cbn [snd].
+  - rewrite wake_cell_buf. destruct (Nat.eqb_spec c ch) as [->|Hne].
+    + rewrite gch_uch_same. reflexivity.
+    + rewrite gch_uch_other by auto. reflexivity.
+  - destruct (Nat.eqb_spec c ch) as [->|Hne]; reflexivity.
+Qed.
+Theorem chan_drop_tx_keeps_buffers ch H c : ch_buf (gch c (chan_drop_tx ch H)) = ch_buf (gch c H).
+Proof.
+  unfold chan_drop_tx. destruct (ch_tx (gch ch H)); [|reflexivity].
+  rewrite wake_cell_buf. destruct (Nat.eq_dec ch c) as [->|Hne]; [rewrite gch_uch_same; reflexivity | rewrite gch_uch_other by exact Hne; reflexivity].
+Qed.
